@@ -114,7 +114,18 @@ def check_region(ctx, case, L, region, pts, use_flags, light=False):
     # the same coordinates handed over as Python lists / tuples instead of arrays: same answers
     if idx is not None and un:
         sub = un[:: max(1, len(un) // 50)]
-        for cname, conv in (("list", list), ("tuple", tuple)):
+        def ro(it):
+            a = numpy.array(list(it))
+            a.setflags(write=False)
+            return a
+
+        def strided(it):
+            v = list(it)
+            b = numpy.full(2 * len(v) + 1, 1e300)
+            b[1::2] = v
+            return b[1::2]
+        for cname, conv in (("list", list), ("tuple", tuple), ("readonly_array", ro), ("bigendian_array", lambda it: numpy.array(list(it), dtype=">f8")),
+                            ("strided_view", strided)):
             o = call(region.get_index_of, conv(float(lons[i]) for i in sub), conv(float(lats[i]) for i in sub))
             want_sub = [idx[un.index(i)] for i in sub]
             if not o.ok:
